@@ -136,10 +136,7 @@ class _World(object):
         """Readers may be constructed long before they are consumed; consumption stays sequential."""
         self.early = {}
         for index, op in enumerate(ops):
-            # an early-constructed reader that is then closed without ever being stepped has nothing that
-            # could re-initialise the shared check state after the runs in between: that is an overlapping
-            # use of one Cid, outside "a sequence of reads and writes" (see DESIGN.md, C08)
-            if op["op"] == "read" and op.get("create") == "early" and op.get("stop_after") != 0:
+            if op["op"] == "read" and op.get("create") == "early":
                 self.early[index] = self.create_read(op)
 
     def run_op(self, index, op):
